@@ -177,6 +177,12 @@ func runChecksumCase(c ckCase, dir string) map[string]interface{} {
 		out["result"] = r
 		_, merr := os.Stat(marker)
 		out["launched"] = merr == nil
+		if r != "launch" {
+			// the same client asked again: a failed check is not forgotten
+			cl.Start()
+			cl.Client()
+			_, merr = os.Stat(marker)
+		}
 		out["launched_late"] = merr == nil
 		cl.Kill()
 		os.Remove(path)
@@ -199,6 +205,11 @@ func runChecksumCase(c ckCase, dir string) map[string]interface{} {
 	}
 	_, merr := os.Stat(marker)
 	out["launched"] = merr == nil
+	if out["result"] != "launch" {
+		// the same client asked again: a failed check is not forgotten
+		cl.Start()
+		cl.Client()
+	}
 	time.Sleep(200 * time.Millisecond)
 	_, merr = os.Stat(marker)
 	out["launched_late"] = merr == nil
